@@ -54,6 +54,7 @@ pub fn cells(tier: Tier) -> Vec<CellPlan> {
     add(cells::vis_neighbour("C01", Vis::Blacklist), 1, 1, 2, 1.0);
     add(cells::pool_reuse("C01"), 1, 1, 4, 1.0);
     add(cells::reref("C01"), 1, 1, 2, 1.0);
+    add(cells::refs_shifted("C01"), 1, 1, 3, 1.0);
     add(cells::two_graphs_insert("C01"), 1, 1, 2, 1.0);
     v
 }
